@@ -1,7 +1,7 @@
 ID = "C07"
 GO_CMD = "pkgs"
 GEN = ["Gen/GenPkg.v"]
-GROUPS = "core,b2"      # generator groups whose models are integrated in Pkg/All.v
+GROUPS = "core,b1,b2"      # generator groups whose models are integrated in Pkg/All.v
 DRIVE_ARGS = ["-prop", "C07", "-groups", GROUPS]
 MODEL_VO = ["theories/Pkg/All.vo"]
 PROOF_VO = ["theories/C07/Props.vo"]
